@@ -1093,6 +1093,11 @@ func writeRIFFExtended(w io.Writer, fourcc uint32, bitstreamData, alphaData []by
 	if riffSize64 > uint64(math.MaxUint32)-8 {
 		return fmt.Errorf("webp: RIFF payload too large (%d bytes)", riffSize64)
 	}
+	// Decode, DecodeConfig and GetFeatures refuse inputs above MaxInputSize:
+	// do not report success for a file this package cannot read back.
+	if 8+riffSize64 > MaxInputSize {
+		return fmt.Errorf("webp: output too large (%d bytes, max %d); reduce the metadata", 8+riffSize64, MaxInputSize)
+	}
 	riffSize := uint32(riffSize64)
 
 	totalSize := 8 + riffSize
